@@ -495,6 +495,21 @@ func checkC14(c *Ctx) {
 		for k := range redirectFns {
 			ok[k] = true
 		}
+		// a command handler that picks the node itself bypasses the router (owner of the key's slot, master for writes):
+		// only the handlers of commands that cannot write may do so (SCAN addresses a node by its cursor)
+		if names, isHandler := byFn[top]; isHandler {
+			var writers []string
+			for _, n := range names {
+				if ref, inRef := redisRef[n]; !inRef || !ref.isReadOnly() {
+					writers = append(writers, n)
+				}
+			}
+			sort.Strings(writers)
+			if len(writers) > 0 {
+				c.Fail("R4", site+" picks the node itself", e.Pos(), "the handler of "+strings.Join(writers, ",")+" - which can modify data - sends to a node it chose itself instead of going through the router: the request can reach a replica or a master that does not own the data (EVAL with numkeys 0 still runs a script that may write)")
+				continue
+			}
+		}
 		if allow(caller, ok, true) {
 			c.OK("R4", site, e.Pos(), "allowed role (router, registered handler, redirect callback or slot refresh)")
 		} else {
